@@ -380,6 +380,62 @@ def custom_scheme_eval(prog):
     return out
 
 
+def join_eval(prog):
+    """References written inside a document under an ordinary base (`http://base/dir/root.json`) designate what RFC 3986 5.2 says,
+    whatever characters the reference contains after its first segment: a colon in a later path segment, in the query or in the
+    fragment does not make a reference absolute (only a scheme in front does), `//host/...` keeps the scheme, `..` climbs.  The package's
+    own resolver (default caches) enters the base and resolves each row; every target document is in its store, a handler that records
+    its calls stands behind `http` so that a miss is seen as a retrieval rather than as the network.
+    -> {row label: message | None} or None."""
+    out = {}
+    try:
+        ev = Ev(prog, fuel=120000, real_errors=True)
+        Obj.ev = ev
+        R = ClsRef(ev, prog.cls("validators.RefResolver"))
+        types = {"definitions": {"xs:int": {"type": "integer"}, "a/b": 1, "plain": 2}}
+        root = {"definitions": {"q:name": {"type": "string"}, "plain": 3}}
+        store = {"http://base/dir/types.json": types, "http://base/dir/a:b.json": {"x": "colon in a later... first relative segment"},
+                 "http://base/dir/sub/x:y.json": {"x": "colon in a later segment"}, "http://base/up.json": {"x": "up"},
+                 "http://other.host/doc.json": {"x": "network-path"}, "http://abs/doc.json": {"x": "absolute"},
+                 "http://base/rooted.json": {"x": "rooted"}, "urn:example:thing": {"x": "urn"}}
+        h = Handler({})
+
+        def urlopen(u, *a, **k):
+            # what urllib answers for a URL without a scheme it can open; there is no network in the evaluated fragment
+            raise PyRaise("ValueError", "unknown url type: %r" % (u,))
+        ev.ext["urllib.request.urlopen"] = urlopen
+        ev.ext["urllib.request"] = type("M", (), {"urlopen": staticmethod(urlopen)})
+        ev.ext["requests"] = None
+        r = R("http://base/dir/root.json", root, handlers={"http": h, "https": h}, store=dict(store))
+        g = lambda n: ev.obj_getattr(r, n)
+        rows = (("colon in the fragment", "types.json#/definitions/xs:int", "http://base/dir/types.json#/definitions/xs:int", types["definitions"]["xs:int"]),
+                ("plain relative", "types.json#/definitions/plain", "http://base/dir/types.json#/definitions/plain", 2),
+                ("colon in a ./ segment", "./a:b.json#/x", "http://base/dir/a:b.json#/x", store["http://base/dir/a:b.json"]["x"]),
+                ("colon in a later segment", "sub/x:y.json#/x", "http://base/dir/sub/x:y.json#/x", "colon in a later segment"),
+                ("fragment-only with a colon", "#/definitions/q:name", "http://base/dir/root.json#/definitions/q:name", root["definitions"]["q:name"]),
+                ("fragment-only", "#/definitions/plain", "http://base/dir/root.json#/definitions/plain", 3),
+                ("parent directory", "../up.json#/x", "http://base/up.json#/x", "up"),
+                ("rooted path", "/rooted.json#/x", "http://base/rooted.json#/x", "rooted"),
+                ("network-path", "//other.host/doc.json#/x", "http://other.host/doc.json#/x", "network-path"),
+                ("absolute", "http://abs/doc.json#/x", "http://abs/doc.json#/x", "absolute"),
+                ("absolute urn", "urn:example:thing#/x", "urn:example:thing#/x", "urn"))
+        for label, ref, want_url, want_val in rows:
+            del h.calls[:]
+            try:
+                url, val = g("resolve")(ref)
+            except PyRaise as pr:
+                url, val = "<%s: %s>" % (pr.name, str(pr.msg)[:80]), None
+            out[label] = None
+            if (url, val) != (want_url, want_val) or h.calls:
+                out[label] = ("under the base http://base/dir/root.json the reference %r resolves to %s%s%s; RFC 3986 5.2 makes it %s, which is in the store"
+                              % (ref, url, "" if val is None else " = %r" % (val,), " after asking the handler for %r" % (h.calls,) if h.calls else "", want_url))
+    except Undecided:
+        return None
+    except PyRaise as pr:
+        out["raises"] = "raises %s (%s)" % (pr.name, pr.msg)
+    return out
+
+
 class _Requests:
     """stand-in for the optional `requests` library: records what it is asked for"""
     def __init__(self, log, docs):
